@@ -661,6 +661,7 @@ func c11AfterPanic(verb string, method, shape int) string {
 }
 
 func checkC11(c *Ctx) {
+	npSection(c, "C11", 2)
 	// (a) runes
 	var runes []rune
 	if c.Quick() {
